@@ -68,6 +68,14 @@ BTOR_OPT_INCREMENTAL = _btor_opts.BTOR_OPT_INCREMENTAL
 BTOR_OPT_MODEL_GEN = _btor_opts.BTOR_OPT_MODEL_GEN
 
 
+class ArrayTrimVisitor(ModelVisitor):
+    """Trims random-size lists to their size"""
+
+    def visit_field_scalar_array(self, f):
+        f.trim_to_size()
+        super().visit_field_scalar_array(f)
+
+
 class Randomizer(RandIF):
     """Implements the core randomization algorithm"""
     
@@ -615,6 +623,9 @@ class Randomizer(RandIF):
                 # on the fields: they belong to a solver that no longer exists
                 # (a visitor, since the field graph may contain cycles)
                 fm.accept(RandSetDisposeVisitor())
+                # Random-size lists were grown to their largest admissible
+                # size for the solve: keep the elements they expose
+                fm.accept(ArrayTrimVisitor())
 
         visited = [] 
         for fm in field_model_l:
